@@ -625,7 +625,71 @@ def suite_race(pid, tier, seed):
                 diffs=diffs[:5], failures=failures, traces=len(cases), stats=dict(scripts=len(cases), events=nev, diffs=len(diffs)))
 
 
-SUITES = dict(seq=suite_seq, crash=suite_crash, fault=suite_fault, codec=suite_codec, range=suite_range, damage=suite_damage, settings=suite_settings, sizes=suite_sizes, conc=suite_conc, race=suite_race)
+
+# ------------------------------------------------------------------------------- power loss (C09)
+def suite_powerloss(pid, tier, seed):
+    spec = PROPS[pid]
+    n = 48 if tier == "quick" else 800
+    rng = random.Random(seed * 1000003 + 71)
+    cases = [gen.crash_case(f"w{i}", rng, length=rng.choice([3, 4, 5, 6]), big=0.2) for i in range(n)]
+    cases += [c.replace("case corpus_", "case plcorpus_", 1) for c in gen.crash_corpus()] + gen.powerloss_corpus()
+    real, model = both_sides(f"powerloss-{tier}-{seed}-{n}", cases, "powerloss-all", extra_env={"HX_SHIM_DATA": "1"})
+    R, M = headers_split(real), headers_split(model)
+    Rn = {h.split()[1]: (h, v) for h, v in R.items()}
+    Mn = {h.split()[1]: (h, v) for h, v in M.items()}
+    diffs, failures, distinct = [], [], set()
+    points = 0
+    for c in cases:
+        name = case_name(c)
+        if name not in Rn:
+            diffs.append(f"K3 power-loss: no output for case {name}"); continue
+        rh, rl = Rn[name]
+        mh, ml = Mn.get(name, ("", []))
+        strip = lambda ls: [re.sub(r"^A .*victims=", "A victims=", l) for l in ls]
+        d = run.first_diff(filt(strip(rl), {"image", "recovery"}) + [canon_staging(l) for l in strip(rl) if l.startswith("A ")],
+                           filt(strip(ml), {"image", "recovery"}) + [canon_staging(l) for l in strip(ml) if l.startswith("A ")])
+        if rh != mh:
+            diffs.append(f"K3 power-loss: number of effective calls differs in case {name}: impl `{rh}` vs model `{mh}`")
+        elif d:
+            diffs.append(f"K3 power-loss image / recovery correspondence differs in case {name}: impl `{d[1][:160]}` vs model `{d[2][:160]}`")
+        blocks = oracle.split_crash_blocks(rl)
+        points += len(blocks)
+        for tag, k, msg in oracle.crash_oracle(c, rl):
+            if tag in spec["tags"] or tag == "nofail":
+                vic = next((l for b in blocks if b["k"] == k for l in b["lines"] if l.startswith("A ")), "")
+                failures.append(mk_failure("powerloss", "powerloss-all", c, f"{name}@cut={k} {vic[vic.find('victims='):][:200]}", tag, msg))
+        for b in blocks:
+            distinct.add("pl:" + hashlib.sha1("\n".join(canon_staging(l) for l in b["lines"] if l.startswith(("C ", "A "))).encode()).hexdigest()[:16])
+    return dict(evaluations=points, distinct=distinct,
+                samples=[dict(suite="powerloss", case=cases[0].splitlines(), images=len(oracle.split_crash_blocks(Rn[case_name(cases[0])][1])) if case_name(cases[0]) in Rn else 0)],
+                diffs=diffs[:5], failures=failures, traces=points, stats=dict(cases=len(cases), images=points, distribution=dist_of(cases), diffs=len(diffs)))
+
+
+
+# ------------------------------------------------------------------------------- orphans (C08)
+def suite_orphans(pid, tier, seed):
+    spec = PROPS[pid]
+    n = 60 if tier == "quick" else 1500
+    rng = random.Random(seed * 1000003 + 73)
+    cases = [gen.orphan_case(f"o{i}", rng, noncanonical=(i % 6 == 5)) for i in range(n)]
+    real, model = both_sides(f"orphans-{tier}-{seed}-{n}", cases, "plain")
+    R, M = run.by_case(real), run.by_case(model)
+    diffs, failures, distinct = [], [], set()
+    for c in cases:
+        name = case_name(c)
+        rl, ml = R.get(name, []), M.get(name, [])
+        d = run.first_diff(filt(rl, {"ret", "ret_open", "ret_orphan", "dir"}), filt(ml, {"ret", "ret_open", "ret_orphan", "dir"}))
+        if d:
+            diffs.append(f"K3 orphan scan / clean-up correspondence differs in case {name}: impl `{d[1][:200]}` vs model `{d[2][:200]}`")
+        for tag, msg in oracle.orphan_oracle(c, rl):
+            if tag in spec["tags"]:
+                failures.append(mk_failure("orphans", "plain", c, name, tag, msg))
+        distinct.add("or:" + case_hash(c))
+    return dict(evaluations=len(cases), distinct=distinct, samples=[dict(suite="orphans", case=cases[0].splitlines())],
+                diffs=diffs[:5], failures=failures, traces=len(cases), stats=dict(cases=len(cases), distribution=dist_of(cases), diffs=len(diffs)))
+
+
+SUITES = dict(seq=suite_seq, crash=suite_crash, fault=suite_fault, codec=suite_codec, range=suite_range, damage=suite_damage, settings=suite_settings, sizes=suite_sizes, conc=suite_conc, race=suite_race, powerloss=suite_powerloss, orphans=suite_orphans)
 
 # ------------------------------------------------------------------------------- known findings
 KNOWN_CLASSES = {}
